@@ -7,7 +7,7 @@ void harness(void)
 {
     xv_ghost_havoc();
     xv_td_havoc();
-    struct xcm_dns_query *q;
+    struct xcm_dns_query *q = xv_q_any();
     bool rv = xcm_dns_query_completed(q);
     if (rv) XV_CANARY("completed");
     if (!rv) XV_CANARY("in progress");
